@@ -112,6 +112,7 @@ var stringPool = []string{
 	"é", "è", "ü", "日本", "日本語", "𝄞", "😀", "\u2028", " ", "\ufeff", "\u0000x", "a\nb", "a\tb", "\"q\"", "\\", "\\u0041",
 	"\x7f", "\u0080", "key", "Key", "KEY", "0", "1", "-1", "01", "1.0", "true", "null", "{}", "[]",
 	"a b", " ", "  ", "\r\n", "<script>", "&amp;", "'", "`", "%00", "\x1f", "\x1e",
+	"\ufffd", "caf\ufffd", "\ufffe", "\uffff", "\ue000", "\ud7ff", "ﾂ", "\U0010ffff", // valid UTF-8: U+FFFD itself, noncharacters, BMP edges
 }
 
 var badUTF8Pool = []string{"\xff", "\xc0\xaf", "\xed\xa0\x80", "a\xffb", "\xf8\x88\x80\x80\x80", "\xc3", "\xe2\x82", "\x80"}
